@@ -105,78 +105,32 @@ def run(ctx, report: Report) -> None:
     for mn, mod in src.mods.items():
         for c in [n for n in ast.walk(mod.tree) if isinstance(n, ast.Call)]:
             if call_name(c).split('.')[-1] == 'pickle_register' and c.args:
-                r = src.resolve_class_ref(mod, c.args[0])
-                if r:
-                    registered.add(r)
+                cands = [c.args[0]]
+                if isinstance(c.args[0], ast.Name):
+                    # registered in a loop over a display of classes
+                    cur = mod.parents.get(c)
+                    while cur is not None:
+                        if isinstance(cur, ast.For) and isinstance(cur.target, ast.Name) and cur.target.id == c.args[0].id \
+                                and isinstance(cur.iter, (ast.Tuple, ast.List)):
+                            cands = list(cur.iter.elts)
+                        cur = mod.parents.get(cur)
+                for a_ in cands:
+                    r = src.resolve_class_ref(mod, a_)
+                    if r:
+                        registered.add(r)
     for c in classes[1:]:
         mn, _, cn = c.partition('.')
         mod = src.mods[mn]
         cls = mod.classes[cn]
-        slots = slots_of(inv, mn, cls)
         problems = []
-        init = mod.functions.get(f'{cn}.__init__')
-        if slots is None:
-            slots = ['_hash']      # inherits Immutable.__slots__
-        if not slots or slots[-1] != '_hash':
-            problems.append(f'__slots__ {slots} does not end with _hash (the reducer drops the last slot)')
-        fields = slots[:-1] if slots else []
-        if init is not None:
-            params = [a.arg for a in init.args.args[1:]]
-            sup = [x for x in walk_no_nested(init) if isinstance(x, ast.Call) and call_name(x) == 'super().__init__']
-            if len(sup) != 1:
-                problems.append('does not call super().__init__ exactly once')
-            else:
-                kws = [k.arg for k in sup[0].keywords]
-                if kws != fields:
-                    problems.append(f'super().__init__ keywords {kws} differ from __slots__[:-1] {fields}')
-            if params != fields:
-                problems.append(f'__init__ parameter order {params} differs from __slots__[:-1] {fields} (the pickle '
-                                f'reducer passes the slot values positionally)')
-        elif fields:
-            problems.append('has fields but no __init__')
         if c not in registered:
             problems.append('is not registered with pickle_register')
-        r2.instance({'class': c, 'fields': fields, 'problems': problems}, key=c)
+        r2.instance({'class': c, 'registered_for_pickle_and_copy': c in registered}, key=c)
         r2.obligation(not problems)
         for p in problems:
             r2.violation(f'{c} {p[:60]}', mod.where(cls), f'{c} {p}')
-    # the reducer
-    pk = tmod.functions.get('_pickle')
-    if pk is None:
-        raise AnalysisError('css_types._pickle not found')
-    rets = [n for n in ast.walk(pk) if isinstance(n, ast.Return)]
-    ok = False
-    if len(rets) == 1 and isinstance(rets[0].value, ast.Tuple) and len(rets[0].value.elts) == 2:
-        a, b = rets[0].value.elts
-        p = pk.args.args[0].arg
-        ctor_ok = unparse(a) == f'{p}.__base__()'
-        args_ok = f'{p}.__slots__[:-1]' in unparse(b) and call_name(b) == 'tuple' if isinstance(b, ast.Call) else False
-        ok = ctor_ok and args_ok
-    r2.instance({'reducer': unparse(rets[0].value) if rets else None, 'rebuilds_through_constructor_without_hash': ok}, key='_pickle')
-    r2.obligation(ok)
-    if not ok:
-        r2.violation('css_types._pickle reducer', tmod.where(pk),
-                     'the pickle/copy reducer no longer rebuilds objects as <class>(*slots[:-1]): a stored _hash or a '
-                     'bypassed constructor makes copies unequal to / hash differently from a fresh compile')
-    # __eq__ / __ne__ / __hash__ / __init__ of Immutable
-    for meth, need in (('__eq__', "self.__slots__"), ('__ne__', "self.__slots__"), ('__hash__', 'self._hash')):
-        fn = tmod.functions.get(f'Immutable.{meth}')
-        txt = unparse(fn) if fn else ''
-        ok = fn is not None and need in txt and (meth == '__hash__' or "!= '_hash'" in txt or "[:-1]" in txt)
-        r2.instance({'Immutable': meth, 'ranges_over_all_slots_but_hash': ok}, key=meth)
-        r2.obligation(ok)
-        if not ok:
-            r2.violation(f'css_types.Immutable.{meth}', tmod.where(fn) if fn else tmod.where(tmod.classes['Immutable']),
-                         f'Immutable.{meth} no longer ranges over every slot except _hash')
-    iinit = tmod.functions.get('Immutable.__init__')
-    txt = unparse(iinit) if iinit else ''
-    kw = iinit.args.kwarg.arg if iinit is not None and iinit.args.kwarg else None
-    ok = kw is not None and f'{kw}.items()' in txt and "'_hash', hash(" in txt
-    r2.instance({'Immutable.__init__': 'hash over every keyword (type and value)', 'ok': ok}, key='init-hash')
-    r2.obligation(ok)
-    if not ok:
-        r2.violation('css_types.Immutable.__init__ hash', tmod.where(iinit) if iinit else '',
-                     'Immutable.__init__ no longer derives _hash from every keyword field')
+    from .sem import immutable_table
+    immutable_table(ctx, r2, classes[1:])
 
     # ---- R3 --------------------------------------------------------------------------------------------------
     r3 = report.rule('C15-R3', 'contents are frozen; map hash is order independent', floor=15)
